@@ -252,6 +252,14 @@ fn do_write(rep: &mut Report, a: u64, data: &[u8], pat: Option<(usize, u64)>, b:
     if rep.evaluations % 9973 == 2 {
         rep.sample(json!({"request": req, "impl": d}));
     }
+    // The list-based Lean model of the write iterator is quadratic in the chunk count
+    // (`data.drop idx` per chunk, as the Rust slices): in the big grid only a deterministic
+    // subsample of the many-chunk cases goes to the model; the oracle above covers all of them.
+    let chunks_est = if b > 20 { data.len() / (b - 20) } else { 0 };
+    if src == "grid" && chunks_est > 64 && (data.len() + b) % 11 != 0 {
+        rep.count("write:grid-many-chunks(oracle only, not sent to model)");
+        return;
+    }
     rep.expect(req, d);
 }
 
